@@ -1,6 +1,6 @@
 """C18 — MPS round trip (DESIGN §5 C18): the writer emits only what the reader accepts and loses nothing."""
 from .common import *
-from .C17 import literal_table, Sx, SxOracle, sx_paths, sx_loop_paths, sx_calls, sx_walk, sx_strip, sx_str
+from .C17 import literal_table, Sx, SxOracle, sx_paths, sx_loop_paths, sx_calls, sx_walk, sx_strip, sx_str, failure_is_error, FailCase
 
 VIEW = 'norm'
 
@@ -197,44 +197,57 @@ def keyword_rules(ctx, W):
 
 def linear_rules(ctx, W):
     R = 'C18.linear'
+    # a function that is not linear (as_linear gives None) makes every path through that call return a typed error -- decided on
+    # paths, so `if let .. else`, `let .. else`, `match`, `ok_or_else(..)?` are the same.  (write_rhs may pass over a non-linear
+    # OBJECTIVE: it only adds the objective's constant; write_columns refuses it, checked below.)
     n = 0
     for name, b in sorted(W.items()):
-        for c in b.calls:
-            if c.item == 'as_linear' and c.path.endswith('Function>::as_linear'):
-                n += 1
-                arms = T.option_arms(b, c.dst['l'])
-                ok = False
-                for sb, m, els in arms:
-                    none_t = m.get(0, els)
-                    r = b.reach([none_t], stop=set(b.loops()))
-                    errs = [st['rv']['adt'].split('::')[-1] for b2, st in b.stmts() if b2 in r and st['rv']['k'] == 'agg' and 'MpsWriteError::Invalid' in st['rv']['adt']]
-                    is_obj = any('objective' in x.item for x in ctx.S.slice_operand(b, c.args[0]).call_objs) if b.name.endswith('write_rhs') else False
-                    if errs and not (r & b.strict_ok_exits()):
-                        ok = True
-                    elif is_obj:
-                        ok = True      # write_rhs only adds the objective constant; non-linear objectives are rejected by write_columns (checked below)
-                ctx.check(ok, R + '/none-is-error/%s' % b.name.split('::')[-1], 'T-ERRFLOW', b.name, 'a non-linear function is skipped instead of being refused with an error', b.site(c.bb))
+        if b.kind != 'fn': continue
+        k = sum(1 for bd in [b] + list(ctx.F.closures_of(b)) for c in bd.calls if c.item == 'as_linear' and c.path.endswith('Function>::as_linear'))
+        if not k: continue
+        n += k
+        exempt_objective = b.name.endswith('write_rhs')
+        def site(v): return v[1] == 'as_linear' and not (exempt_objective and any(c is not v for c in sx_calls(v, 'objective')))
+        res = failure_is_error(ctx, R + '/none-is-error/%s' % b.name.split('::')[-1], 'T-ERRFLOW', b, site, 'None', ('MpsWriteError::InvalidConstraintType', 'MpsWriteError::InvalidObjectiveType'))
+        if res is None: continue
+        seen, probs = res
+        ctx.check(seen >= 1 and not probs, R + '/none-is-error/%s' % b.name.split('::')[-1], 'T-ERRFLOW', b.name, 'a non-linear function is skipped instead of being refused with an error (%s)' % '; '.join(probs[:2]), b.site())
     ctx.check(n >= 3, R + '/sites', 'T-ERRFLOW', 'mps::to_mps', 'expected >= 3 uses of Function::as_linear in the writer, found %d' % n)
-    # the error names the offender: InvalidConstraintType{name: row name, degree: func.degree()}
+    # the error names the offender: InvalidConstraintType{name: row name, degree: func.degree()} -- read off the value returned
+    # when as_linear gives None, wherever the aggregate is built (else branch, let-else, closure of ok_or_else)
     b = W.get('mps::to_mps::write_col_entry')
     if b is not None:
-        for bi, st in b.stmts():
-            if st['rv']['k'] == 'agg' and st['rv']['adt'].endswith('MpsWriteError::InvalidConstraintType'):
-                d = dict(zip(st['rv']['fields'], st['rv']['ops']))
-                okn = T.access_path(b, d['name'])[1] == 3 or 3 in ctx.S.slice_operand(b, d['name']).params
-                okd = T.expr_has_call(T.expr(b, d['degree']), 'degree')
-                ctx.check(okn and okd, R + '/error-names-offender', 'T-CARRY', b.name, 'InvalidConstraintType does not carry the row name and the degree', b.site(bi))
+        orc = FailCase(lambda v: v[1] == 'as_linear', 'None')
+        ps = sx_paths(ctx, R + '/error-names-offender', 'T-CARRY', b, orc)
+        if ps is not None:
+            errs = [x for p in ps if p.end == 'return' and p.value is not None for x in sx_walk(p.value) if x[0] == 'agg' and x[1].endswith('MpsWriteError::InvalidConstraintType')]
+            def ok(x):
+                d = dict(zip(x[2], x[3]))
+                return 'name' in d and 'degree' in d and any(y == ('param', 3) for y in sx_walk(d['name'])) and any(c[1] == 'degree' and any(y == ('param', 4) for y in sx_walk(c)) for c in sx_calls(d['degree']))
+            ctx.check(bool(errs) and all(ok(x) for x in errs), R + '/error-names-offender', 'T-CARRY', b.name, 'InvalidConstraintType does not carry the row name and the degree', b.site())
     b = W.get('mps::to_mps::write_columns')
     if b is not None:
         # objective entry goes through write_col_entry with OBJ_NAME and its error is re-labelled as InvalidObjectiveType
         wc = [c for c in b.calls if c.item == 'write_col_entry']
         obj = [c for c in wc if any(x.item == 'objective' for x in ctx.S.slice_operand(b, c.args[3]).call_objs)]
         ctx.check(len(obj) >= 1, R + '/objective-checked', 'T-MUSTCALL', b.name, 'the objective is not written (and checked for linearity) per column', b.site())
-        for what, cs in (('objective', obj), ('constraint', [c for c in wc if c not in obj])):
-            bad = [h for c in cs for k, h in result_errflow(b, c.dst['l']) if k == 'bad']
-            ctx.check(bool(cs) and not bad, R + '/column-entry-error/%s' % what, 'T-ERRFLOW', b.name, 'write_col_entry error is dropped (%s)' % '; '.join(sorted(set(bad))), b.site(cs[0].bb) if cs else b.site())
-        relabel = any(st['rv']['k'] == 'agg' and st['rv']['adt'].endswith('MpsWriteError::InvalidObjectiveType') for cb in [b] + ctx.F.closures_of(b) for bi, st in cb.stmts())
-        ctx.check(relabel, R + '/objective-error-type', 'T-ERRFLOW', b.name, 'a non-linear objective is not reported as InvalidObjectiveType', b.site())
+        # when writing an entry fails, every path through that call returns Err (`?`, map_err + `?`, an explicit match: the same)
+        def is_obj(v): return any(c[1] == 'objective' for c in sx_calls(v))
+        for what, pred in (('objective', lambda v: v[1] == 'write_col_entry' and is_obj(v)), ('constraint', lambda v: v[1] == 'write_col_entry' and not is_obj(v))):
+            res = failure_is_error(ctx, R + '/column-entry-error/%s' % what, 'T-ERRFLOW', b, pred, 'Err')
+            if res is not None:
+                ctx.check(res[0] >= 1 and not res[1], R + '/column-entry-error/%s' % what, 'T-ERRFLOW', b.name, 'write_col_entry error is dropped (%s)' % ('; '.join(res[1][:2]) or 'no such call'), b.site())
+        # a non-linear objective (write_col_entry reports InvalidConstraintType for the row it was given) is re-labelled
+        class ObjNonLinear(FailCase):
+            def call(self, sx, node, st):
+                if node[1] == 'write_col_entry' and is_obj(node):
+                    return ('agg', 'std::result::Result::Err', ('0',), (('agg', 'mps::MpsWriteError::InvalidConstraintType', ('name', 'degree'), (('const', '"OBJ"'), ('const', '2_u32'))),))
+                return None
+        ps = sx_paths(ctx, R + '/objective-error-type', 'T-ERRFLOW', b, ObjNonLinear(lambda v: False))
+        if ps is not None:
+            rets = [p for p in ps if p.end == 'return' and p.value is not None and any(e[0] == 'call' and e[1] == 'write_col_entry' and is_obj(('call', e[1], e[2], e[3], e[4], 0)) for e in p.events)]
+            ok = bool(rets) and all(any(x[0] == 'agg' and x[1].endswith('MpsWriteError::InvalidObjectiveType') for x in sx_walk(p.value)) for p in rets)
+            ctx.check(ok, R + '/objective-error-type', 'T-ERRFLOW', b.name, 'a non-linear objective is not reported as InvalidObjectiveType', b.site())
         # every column x every constraint
         loops = T.for_loops(b)
         con = [c for c in wc if c not in obj]
@@ -416,11 +429,11 @@ def bounds_rules(ctx, W):
         ok = bool(got) and all(got[k] == (['LI', 'UI'] if k in (binno, intno) else ['LO', 'UP']) for k in got)
         ctx.check(ok, 'C18.magic/kind/write_bounds', 'T-CONST', b.name, 'bound keywords per value of kind are %s; the schema numbers of BINARY/INTEGER are %s' % (got, sorted(x for x in (binno, intno) if x is not None)), b.site(nextc.bb))
         # unknown id => InvalidVariableId
-        gets = [c for c in b.calls if c.bb in blocks and c.item in ('get', 'get_key_value') and 'HashMap' in c.name]
-        bad = [h for c in gets for k_, h in T.errflow(b, c.dst['l']) if k_ == 'bad']
-        ctx.check(bool(gets) and not bad, R + '/unknown-id-is-error', 'T-ERRFLOW', b.name, 'unknown variable id: %s' % '; '.join(sorted(set(bad))), b.site(nextc.bb))
-        okid = any(st['rv']['k'] == 'agg' and st['rv']['adt'].endswith('MpsWriteError::InvalidVariableId') for cb in [b] + list(ctx.F.closures_of(b)) for bi, st in cb.stmts())
-        ctx.check(okid, R + '/unknown-id-typed', 'T-ERRFLOW', b.name, 'unknown id is not reported as InvalidVariableId', b.site())
+        res = failure_is_error(ctx, R + '/unknown-id-is-error', 'T-ERRFLOW', b, lambda v: v[1] in ('get', 'get_key_value') and 'HashMap::<' in v[2], 'None', 'MpsWriteError::InvalidVariableId')
+        if res is not None:
+            goes_on = [x for x in res[1] if x.startswith('the function goes on')]
+            ctx.check(res[0] >= 1 and not goes_on, R + '/unknown-id-is-error', 'T-ERRFLOW', b.name, 'unknown variable id: %s' % ('; '.join(goes_on[:2]) or 'no lookup by id'), b.site(nextc.bb))
+            ctx.check(res[0] >= 1 and not res[1], R + '/unknown-id-typed', 'T-ERRFLOW', b.name, 'unknown id is not reported as InvalidVariableId', b.site())
 
 
 def ids_rules(ctx, W):
@@ -471,10 +484,18 @@ def check(ctx):
     magic_rules(ctx, W); keyword_rules(ctx, W); linear_rules(ctx, W); rhs_rules(ctx, W); bounds_rules(ctx, W); ids_rules(ctx, W)
     wm = W.get('mps::to_mps::write_mps')
     if wm is not None:
-        for fn in ('write_beginning', 'write_rows', 'write_columns', 'write_rhs', 'write_bounds'):
-            mustcall(ctx, 'C18.sections/' + fn, wm, lambda c, fn=fn: c.item == fn, fn + '(instance, out)?')
-        order = [c.item for c in wm.calls if c.item.startswith('write_') and c.item != 'write_fmt']
-        ctx.check(order == ['write_beginning', 'write_rows', 'write_columns', 'write_rhs', 'write_bounds'], 'C18.sections/order', 'T-BRANCHFX', wm.name, 'sections are written in the order %s' % order, wm.site())
+        # on every successful path all five sections are written, in the order of the format, and a section's error is the
+        # function's error -- decided on paths (`?`, `and_then` chains, a tail expression returning the last Result: the same)
+        secs = ['write_beginning', 'write_rows', 'write_columns', 'write_rhs', 'write_bounds']
+        ps = sx_paths(ctx, 'C18.sections/order', 'T-BRANCHFX', wm, SxOracle())
+        if ps is not None:
+            sx = Sx(ctx, wm, SxOracle())
+            oks = [[e[1] for e in p.events if e[0] == 'call' and e[1] in secs] for p in ps if p.end == 'return' and p.value is not None and sx.variant(p.value, p) != 'Err']       # Ok, or the Result of the last write returned as it is
+            for fn in secs:
+                res = failure_is_error(ctx, 'C18.sections/' + fn, 'T-MUSTCALL', wm, lambda v, fn=fn: v[1] == fn, 'Err')
+                if res is None: continue
+                ctx.check(bool(oks) and all(fn in o for o in oks) and res[0] >= 1 and not res[1], 'C18.sections/' + fn, 'T-MUSTCALL', wm.name, 'no call `%s(instance, out)` on every successful path with its error propagated' % fn, wm.site())
+            ctx.check(bool(oks) and all(o == secs for o in oks), 'C18.sections/order', 'T-BRANCHFX', wm.name, 'sections are written in the order %s' % (oks[:1] or 'none'), wm.site())
     # decided instances per family on the unchanged tree
-    for fam, n in {'C18.magic': 4, 'C18.keywords': 26, 'C18.linear': 9, 'C18.bounds': 8, 'C18.ids': 9, 'C18.sections': 6, 'C18.rhs': 3, 'C18.columns': 7}.items():
+    for fam, n in {'C18.magic': 4, 'C18.keywords': 26, 'C18.linear': 8, 'C18.bounds': 8, 'C18.ids': 9, 'C18.sections': 6, 'C18.rhs': 3, 'C18.columns': 7}.items():
         ctx.floor(fam, n)
